@@ -37,10 +37,12 @@ META = {
                   "extractor is the border face renumbered and outward for a non-degenerate cell, whatever the cell's "
                   "orientation or the declared order of the face, and the two extractors agree (repair 832f457: the standalone "
                   "extractor copied the stored order = inward for right-handed cells); vertex/face dicts as written are "
-                  "inverse; edge dicts total both ways and inverse; no AttributeError for any call order. PARTIAL "
-                  "(C03_edge_ring_partial): rotational order around an edge is proved for the CELLS (never raises, "
-                  "permutation of the edge's cells/faces, sorted flag => consecutive cells share a face through the edge, "
-                  "conforming + face-connected => sorted flag) but the order of the sorted FACE list is only tested. "
+                  "inverse; edge dicts total both ways and inverse; no AttributeError for any call order; rotational order "
+                  "around an edge (C03_edge_ring, full): for every start cell the sort never raises nor runs out of fuel and "
+                  "returns permutations of the edge's cells and faces; when it reports sorted, the cells are duplicate-free "
+                  "with consecutive cells sharing a face through the edge AND the faces are duplicate-free with consecutive "
+                  "faces bounding a common cell (each walk crosses distinct faces; a face crossed by both walks can only be "
+                  "the closing face of a ring, whose backward key wins); conforming + face-connected cells => sorted. "
                   "STRUCTURAL / TESTED ONLY: the partitions boundary ++ interior (two halves of one filter in the model); "
                   "that answers do not depend on the query order (the model is pure; scripts of 3-25 calls in random order "
                   "test it); set enumeration orders. The hand-written part of the model is tied to the code by "
